@@ -1,6 +1,7 @@
 import DendroModel.Model.C01
 import DendroModel.Theory.IsoSame
 import DendroModel.Theory.Reseed
+import DendroModel.Theory.Unrooted
 import DendroModel.Theory.Laminar
 import DendroModel.Theory.Lsb
 /-! C01 — property theorems.  Obligations are the theorems directly in `namespace DendroModel.C01`;
@@ -277,6 +278,21 @@ theorem unrooted_splits_invariant_under_inversion (lo : Nat) (pre ds post : List
     (hsingle : ∀ a, bits lo ⊆ bits a ∨ Disjoint (bits lo) (bits a)) (hne : lo ≠ 0) :
     ∀ s, s ∈ usplits lo (invertAt pre ds post) ↔ s ∈ usplits lo (.node (pre ++ .node ds :: post)) :=
   usplits_invert lo pre ds post hg hlo hsingle hne
+
+/-- unrooted, sufficiency: for two well-formed unifurcation-free trees over the same leaves, both seeded next to the lowest
+    leaf (the canonical seed position; every unrooted tree reaches it by edge inversions, which keep the normalised split
+    set by the previous theorem), equal sets of normalised split masks ⇒ the same tree up to child order -/
+theorem unrooted_splits_determine_topology (k : Nat) (t u : Hier.T) (hgt : Good t) (hgu : Good u)
+    (hnt : NoUnif t) (hnu : NoUnif u) (hct : Canon k t) (hcu : Canon k u) (hL : Hier.mask t = Hier.mask u)
+    (hs : ∀ s, s ∈ usplits (1 <<< k) t ↔ s ∈ usplits (1 <<< k) u) : Iso t u :=
+  usplits_injective_canon k t u hgt hgu hnt hnu hct hcu hL hs
+
+/-- … and what the normalised split set of a tree in canonical position is: the complement of the lowest leaf, plus the
+    clades of the other children of the seed, unchanged -/
+theorem unrooted_splits_canonical_form (k : Nat) (cs : List Hier.T) (hg : GoodL cs) (hk : Hier.T.leaf k ∈ cs) (x : Nat) :
+    x ∈ usplits (1 <<< k) (.node cs) ↔
+      x = sdiff (maskL cs) (1 <<< k) ∨ ∃ c ∈ cs, c ≠ Hier.T.leaf k ∧ x ∈ clades c :=
+  usplits_canon hg hk x
 
 /-! ### (d) reconstruction from an encoding, in any order -/
 
